@@ -11,7 +11,7 @@ from pymtl3.passes.backends.verilog.translation.behavioral.VBehavioralTranslator
     BehavioralRTLIRToVVisitorL1,
     VBehavioralTranslatorL1,
 )
-from pymtl3.passes.backends.verilog.util.utility import make_indent
+from pymtl3.passes.backends.verilog.util.utility import make_indent, sized_decimal
 from pymtl3.passes.rtlir import BehavioralRTLIR as bir
 from pymtl3.passes.rtlir import RTLIRDataType as rdt
 from pymtl3.passes.rtlir import RTLIRType as rt
@@ -172,7 +172,7 @@ class YosysBehavioralRTLIRToVVisitorL1( BehavioralRTLIRToVVisitorL1 ):
       obj = Type.get_object()
       if isinstance( obj, int ):
         nbits = node.Type.get_dtype().get_length()
-        node.sexpr['s_attr'] = f"{nbits}'d{int(obj)}"
+        node.sexpr['s_attr'] = sized_decimal( nbits, obj )
         node.sexpr['s_index'] = ""
       elif isinstance( obj, Bits ):
         # nbits = obj.nbits
@@ -269,7 +269,7 @@ class YosysBehavioralRTLIRToVVisitorL1( BehavioralRTLIRToVVisitorL1 ):
   def visit_FreeVar( s, node ):
     if isinstance( node.obj, int ):
       nbits = node.Type.get_dtype().get_length()
-      return f"{nbits}'d{int(node.obj)}"
+      return sized_decimal( nbits, node.obj )
     elif isinstance( node.obj, Bits ):
       nbits = node.obj.nbits
       value = int( node.obj )
